@@ -17,7 +17,11 @@ if TYPE_CHECKING:
 logger = get_logger(__name__)
 
 # Matches both legacy (v3.metadata.json) and current (v3-1a2b3c4d.metadata.json) names
-_METADATA_FILE_RE = re.compile(r"^v(\d+)(?:-[0-9a-f]{8})?\.metadata\.json$")
+# Version numbers are ASCII digits, at most 18 of them: "\d" and str.isdigit()
+# also accept other Unicode digits ("\u00b3", "\u0663"), which int() either rejects
+# with ValueError or silently maps to an ASCII number nobody wrote.
+_METADATA_FILE_RE = re.compile(r"^v([0-9]{1,18})(?:-[0-9a-f]{8})?\.metadata\.json$")
+_LEGACY_HINT_RE = re.compile(r"^[0-9]{1,18}$")
 
 
 class ConcurrentModificationException(Exception):
@@ -588,7 +592,7 @@ class MetadataManager:
             return None
         if not text:
             return None
-        if text.isdigit():
+        if _LEGACY_HINT_RE.match(text):
             # Legacy format: plain version number -> legacy filename
             return int(text), f"v{text}.metadata.json"
         m = _METADATA_FILE_RE.match(text)
